@@ -7,11 +7,11 @@ import (
 	"context"
 	"time"
 
+	"github.com/panjf2000/ants/v2"
 	"github.com/projecteru2/core/lock"
 	"github.com/projecteru2/core/store"
 	"github.com/projecteru2/core/types"
 	"github.com/projecteru2/core/utils"
-	"github.com/panjf2000/ants/v2"
 )
 
 //verif:zeropkg github.com/panjf2000/ants/v2
